@@ -1139,8 +1139,9 @@ class Machine(object):
             source (str, Enum or State): Limits removal to transitions from a certain state.
             dest (str, Enum or State): Limits removal to transitions to a certain state.
         """
-        source = listify(source) if source != "*" else source
-        dest = listify(dest) if dest != "*" else dest
+        # transitions store state names; accept State objects and Enum members as filters, too
+        source = [s.name if hasattr(s, 'name') else s for s in listify(source)] if source != "*" else source
+        dest = [d.name if hasattr(d, 'name') else d for d in listify(dest)] if dest != "*" else dest
         # outer comprehension, keeps events if inner comprehension returns lists with length > 0
         tmp = {key: value for key, value in
                {k: [t for t in v
